@@ -5,11 +5,37 @@ names and a list of thunks, one for every member of a small pool of arguments of
 kind. The law: each thunk raises, and what it raises is an instance of one of the named classes (the
 property: "invalid arguments and missing keys are reported with the documented LenaException
 subclasses"). Cases the docstrings leave open are not in the table.
+
+The table was made by going through every ``:exc:`` role of every docstring under lena/ (the counter
+``exc_roles`` below counts them on the tree under test). An error case is also taken when the docstring
+hands the argument over to another lena callable whose docstring names the exception ("*select* is
+converted to a Selector, see its specifications"; GroupBy.fill makes its key with
+lena.context.to_string) - the documented exception of the inner callable is then the documented
+exception of the outer call, unless the outer docstring names another one (then either is accepted).
+Where a docstring names a Python exception (``:exc:`AttributeError```), or says that the exception of
+a user's callable is raised as it is, the named class is looked up in builtins.
+Not in the table, with the reason: the ROOT elements (lena.input, WriteROOTTree: ROOT is absent);
+Cache.drop_cache (needs a file that is readable and can not be removed: an environment fault, C18);
+GroupPlots and _GroupBy (deprecated since 0.6, GroupPlots warns on construction); update_nested with a
+recursive dictionary ("may be raised"); PDFToPNG/LaTeXToPDF (external programs are never started).
+
+Two measurements make the bound of the table visible (no verdict depends on them):
+``raising_handlers`` lists every ``except`` clause under lena/ whose body raises (the places where lena
+translates an error into the one it documents), and ``HandlerTrace`` records which of them the table
+really enters; a fault inside such a handler (a wrong attribute of the caught exception, a wrong class
+raised) can be seen only by a case that enters it.
 """
+import ast
+import builtins
+import os
+import sys
+import warnings
+
 import lena.context
 import lena.core
 import lena.flow
 import lena.math
+import lena.meta
 import lena.output
 import lena.structures
 import lena.variables
@@ -22,6 +48,112 @@ def _h(bins=None):
 
 def _consume(x):
     return list(x)
+
+
+def exception_class(name):
+    """The class a docstring names: a lena exception, else a Python one."""
+    cls = getattr(lena.core, name, None)
+    if cls is None:
+        cls = getattr(builtins, name)
+    return cls
+
+
+# ---- measurements ------------------------------------------------------------------------------
+
+def _lena_sources(root):
+    for dp, dns, fns in os.walk(os.path.join(root, "lena")):
+        dns.sort()
+        for fn in sorted(fns):
+            if fn.endswith(".py"):
+                yield os.path.join(dp, fn)
+
+
+def _parse(path):
+    with open(path, encoding="utf-8") as f:
+        src = f.read()
+    with warnings.catch_warnings():
+        warnings.simplefilter("ignore")       # invalid escape sequences in old docstrings
+        return ast.parse(src)
+
+
+def raising_handlers(root):
+    """{(real path, first line of the handler body): "lena/x.py:LINE except TYPES"} for every except
+    clause under *root*/lena whose body contains a raise statement."""
+    out = {}
+    for path in _lena_sources(root):
+        rel = os.path.relpath(path, root)
+        for node in ast.walk(_parse(path)):
+            if not isinstance(node, ast.ExceptHandler):
+                continue
+            if not any(isinstance(x, ast.Raise) for b in node.body for x in ast.walk(b)):
+                continue
+            what = ast.unparse(node.type) if node.type is not None else "<any>"
+            out[(os.path.realpath(path), node.body[0].lineno)] = "%s:%d except %s" % (rel, node.lineno, what)
+    return out
+
+
+def exc_roles(root):
+    """Number of ``:exc:`` roles in the docstrings under *root*/lena."""
+    n = 0
+    for path in _lena_sources(root):
+        for node in ast.walk(_parse(path)):
+            if isinstance(node, (ast.Module, ast.ClassDef, ast.FunctionDef)):
+                n += (ast.get_docstring(node, clean=False) or "").count(":exc:")
+    return n
+
+
+class HandlerTrace(object):
+    """Records which of *handlers* (keys of raising_handlers) are entered while it is active."""
+
+    def __init__(self, handlers):
+        self.handlers = handlers
+        self.files = {}
+        for path, _ in handlers:
+            self.files[path] = True
+        self.entered = set()
+        self._real = {}
+        self._old = None
+
+    def _global(self, frame, event, arg):
+        fn = frame.f_code.co_filename
+        real = self._real.get(fn)
+        if real is None:
+            real = self._real[fn] = os.path.realpath(fn)
+        if real not in self.files:
+            return None
+
+        def local(frame, event, arg):
+            if event == "line" and (real, frame.f_lineno) in self.handlers:
+                self.entered.add((real, frame.f_lineno))
+            return local
+        return local
+
+    def __enter__(self):
+        self._old = sys.gettrace()
+        sys.settrace(self._global)
+        return self
+
+    def __exit__(self, *exc):
+        sys.settrace(self._old)
+        return False
+
+
+# ---- pools shared by several entries -----------------------------------------------------------
+
+class _Plain(object):
+    def __repr__(self):
+        return "<plain object>"
+
+
+def unserializable_items():
+    """Items that JSON can not represent ("for example, a set"), one of every common kind."""
+    import decimal
+    return [{1, 2}, frozenset(["a"]), _Plain(), b"x", 1j, abs, decimal.Decimal("0.5"), range(2)]
+
+
+def contexts_holding(item):
+    """The item as a value, in a nested dictionary and inside a list, always under the key "k"."""
+    return [{"k": item, "z": 1}, {"k": {"n": item}, "z": 1}, {"k": [1, item], "z": 1}]
 
 
 def entries():
@@ -202,4 +334,203 @@ def entries():
     add("output/make_filename.py:50 MakeFilename: no arguments / other keyword arguments", ["LenaTypeError"],
         lambda: lena.output.MakeFilename(), lambda: lena.output.MakeFilename(filename=5),
         lambda: lena.output.MakeFilename(suffix=5), lambda: lena.output.MakeFilename(prefix=["p"]))
+    _more_entries(add)
     return E
+
+
+class _FC(object):
+    """A minimal FillCompute element."""
+    def fill(self, value):
+        pass
+
+    def compute(self):
+        return iter(())
+
+
+class _Raiser(object):
+    """A user's callable that raises *exc* (kept as an object: no __name__)."""
+    def __init__(self, exc):
+        self.exc = exc
+
+    def __call__(self, value):
+        raise self.exc("from the user's callable")
+
+
+def _fr():
+    return lena.core.FillRequest(lena.math.Sum(), bufsize=1, reset=True, buffer_input=True)
+
+
+def _fill_all(el, values):
+    for v in values:
+        el.fill(v)
+
+
+def _slice_fill(args, n):
+    s = lena.flow.Slice(*args)
+    sink = lena.flow.StoreFilled() if hasattr(lena.flow, "StoreFilled") else _FC()
+    for i in range(n):
+        s.fill_into(sink, i)
+
+
+def _more_entries(add):
+    """Second pass over the :exc: roles: cases reached through another documented callable, run-time
+    cases of elements (fill, run, __call__) and the remaining constructors."""
+    from lena.variables import Variable
+    items = unserializable_items()
+
+    # ---- contexts that can not be made a key (to_string and the elements that document its use)
+    add("context/functions.py:527 to_string: an item is unserializable", ["LenaValueError"],
+        *[lambda c=c: lena.context.to_string(c) for it in items for c in contexts_holding(it)])
+    # GroupBy.fill: "a group key is calculated via group_by and merge ... LenaValueError is raised" when
+    # no key can be made for the value; the key of a context is its to_string. The selected part of the
+    # context holds the item in every case (with the default arguments nothing is selected: not a case).
+    gb_args = [dict(group_by="k"), dict(group_by=("k", "y")), dict(group_by="", merge="z"),
+               dict(group_by="", merge=("y", "z"))]
+    add("flow/group_by.py:73 GroupBy.fill: no key can be made from the selected context", ["LenaValueError"],
+        *[lambda c=c, kw=kw: lena.flow.GroupBy(**kw).fill((1, c))
+          for it in items for c in contexts_holding(it) for kw in gb_args])
+    add("flow/group_by.py:73 GroupBy.fill after values that were grouped", ["LenaValueError"],
+        *[lambda c=c: _fill_all(lena.flow.GroupBy("k"), [(1, {"k": "a"}), (2, {"k": "b"}), (3, c)])
+          for it in items[:3] for c in contexts_holding(it)])
+
+    # ---- lena.context
+    add("context/functions.py:226 format_update_with: d lacks a key needed to format value", ["LenaKeyError"],
+        lambda: lena.context.format_update_with("a", "{{b}}", {"c": 1}),
+        lambda: lena.context.format_update_with("a.b", "{{c.d}}", {"c": 1}),
+        lambda: lena.context.format_update_with("a", "{{b}}_{{c}}", {"b": 1}))
+    add("context/functions.py:434 str_to_dict: one part and no value", ["LenaValueError"],
+        lambda: lena.context.str_to_dict("a"), lambda: lena.context.str_to_dict("abc d"))
+    add("context/update_context.py:87 UpdateContext: value=True and braces not only at the ends",
+        ["LenaValueError"],
+        *[lambda u=u: lena.context.UpdateContext("a", u, value=True)
+          for u in ["{{b}}_{{c}}", "x{{b}}", "{{b}}x", "b", "{{}}"]])
+    add("context/update_context.py:47 UpdateContext: a context value that is missing, no default",
+        ["LenaKeyError"],
+        lambda: lena.context.UpdateContext("a", "{{b}}", value=True)((1, {"c": 1})),
+        lambda: lena.context.UpdateContext("a", "{{b.c}}", value=True)((1, {"b": {"d": 1}})),
+        lambda: lena.context.UpdateContext("a", "{{b.c}}", value=True)((1, {"b": 1})),
+        lambda: lena.context.UpdateContext("a", "{{b}}", value=True, raise_on_missing=True)(1))
+    add("context/update_context.py:65 UpdateContext: two of default, skip_on_missing, raise_on_missing",
+        ["LenaValueError"],
+        lambda: lena.context.UpdateContext("a", "{{b}}", default=0, skip_on_missing=True),
+        lambda: lena.context.UpdateContext("a", "{{b}}", skip_on_missing=True, raise_on_missing=True),
+        lambda: lena.context.UpdateContext("a", "{{b}}", value=True, default=0, raise_on_missing=True))
+    add("context/context.py:48 Context: a private attribute", ["AttributeError"],
+        lambda: lena.context.Context({"a": 1})._b, lambda: lena.context.Context()._formatter_)
+
+    # ---- lena.meta
+    add("meta/elements.py:26 SetContext: value could not be formatted", ["LenaKeyError"],
+        lambda: lena.meta.SetContext("a", "{{b}}")._get_context(),
+        lambda: lena.core.Sequence(lena.meta.SetContext("a", "{{b}}"))._get_context(),
+        lambda: lena.core.Sequence(lena.meta.SetContext("c", 1),
+                                   lena.meta.SetContext("a", "{{b.d}}"))._get_context())
+
+    # ---- lena.core
+    add("core/fill_seq.py:42 FillSeq: empty, last has no fill, one not convertible to FillInto",
+        ["LenaTypeError"],
+        lambda: lena.core.FillSeq(), lambda: lena.core.FillSeq(abs), lambda: lena.core.FillSeq(_FC(), abs),
+        *[lambda a=a: lena.core.FillSeq(a, _FC()) for a in [5, None, "s"]])
+    add("core/fill_compute_seq.py:80 FillComputeSeq: the part before the FillCompute element is wrong",
+        ["LenaTypeError"],
+        *[lambda a=a: lena.core.FillComputeSeq(a, _FC()) for a in [5, None, "s"]])
+    add("core/fill_compute_seq.py:80 FillComputeSeq: the part after the FillCompute element is wrong",
+        ["LenaTypeError"],
+        *[lambda a=a: lena.core.FillComputeSeq(_FC(), a) for a in [5, None, "s"]])
+    add("core/fill_request_seq.py:42 FillRequestSeq: the sequences before and after are wrong",
+        ["LenaTypeError"],
+        *([lambda a=a: lena.core.FillRequestSeq(a, _fr(), bufsize=1, buffer_input=True) for a in [5, None, "s"]]
+          + [lambda a=a: lena.core.FillRequestSeq(_fr(), a, bufsize=1, buffer_input=True) for a in [5, None, "s"]]))
+    add("core/fill_request_seq.py:41 FillRequestSeq: unknown keyword arguments were received", ["LenaTypeError"],
+        lambda: lena.core.FillRequestSeq(_fr(), bufsize=1, buffer_input=True, other=1),
+        lambda: lena.core.FillRequestSeq(abs, _fr(), bufsize=1, buffer_input=True, buf_size=2))
+    add("core/adapters.py:111 FillCompute: named methods are missing or not callable", ["LenaTypeError"],
+        lambda: lena.core.FillCompute(_FC(), fill="fil"), lambda: lena.core.FillCompute(_FC(), compute="calc"),
+        lambda: lena.core.FillCompute(lena.math.Sum(), fill="_value"))
+    add("core/adapters.py:307 FillRequest: bufsize is not a natural number", ["LenaValueError"],
+        *[lambda b=b: lena.core.FillRequest(lena.math.Sum(), bufsize=b, reset=True, buffer_input=True)
+          for b in [0, -1, 1.5]])
+    add("core/adapters.py:311 FillRequest: reset is True and el has no reset", ["LenaTypeError"],
+        lambda: lena.core.FillRequest(_FC(), bufsize=1, reset=True, buffer_input=True))
+    add("core/split.py:253 Split()(): not all sequences are Sources", ["LenaAttributeError"],
+        lambda: _consume(lena.core.Split([abs])()), lambda: _consume(lena.core.Split([_FC()])()),
+        lambda: _consume(lena.core.Split([abs, _FC()])()), lambda: _consume(lena.core.Split([])()))
+
+    # ---- lena.flow
+    # Filter: "if the conversion could not be done"; the items of a container are converted as well
+    bad_selectors = [5, None, 2.5, {"a": 1}, [5], (None,), [abs, 5], (abs, [2.5]), [("a", {})]]
+    add("flow/filter.py:13 Filter: an item of a container cannot be converted to a Selector", ["LenaTypeError"],
+        *[lambda s=s: lena.flow.Filter(s) for s in bad_selectors[4:]])
+    add("structures/split_into_bins.py:173 MapBins: incorrect arguments", ["LenaTypeError"],
+        *([lambda a=a: lena.structures.MapBins(a) for a in [5, None, "s"]]
+          + [lambda s=s: lena.structures.MapBins(abs, select_bins=s) for s in bad_selectors]))
+    # "in case of an exception the selector raises that exception"
+    for exc in ["ZeroDivisionError", "KeyError", "LenaValueError", "AttributeError"]:
+        cls = exception_class(exc)
+        add("flow/selectors.py:33 Selector()(value): the exception of the callable is raised (%s)" % exc, [exc],
+            lambda cls=cls: lena.flow.Selector(_Raiser(cls))(1),
+            lambda cls=cls: lena.flow.Selector([_Raiser(cls)])(1),
+            lambda cls=cls: lena.flow.Selector((abs, _Raiser(cls)))(1),
+            lambda cls=cls: lena.flow.Not(_Raiser(cls))(1))
+    add("flow/iterators.py:206 Slice.fill_into: the filling should stop", ["LenaStopFill"],
+        *[lambda a=a, n=n: _slice_fill(a, n)
+          for a, n in [((0,), 1), ((1,), 2), ((2,), 3), ((1, 2), 3), ((0, 3, 2), 4), ((None, 2), 3)]])
+    add("flow/group_plots.py:144 MapGroup.run: data and context.group of different lengths", ["LenaRuntimeError"],
+        lambda: _consume(lena.flow.MapGroup(abs).run([([1, 2], {"group": [{}]})])),
+        lambda: _consume(lena.flow.MapGroup(abs).run([([1], {"group": [{}, {}]})])),
+        lambda: _consume(lena.flow.MapGroup(abs, map_scalars=False).run([([1, 2, 3], {"group": [{}, {}]})])))
+    add("flow/group_plots.py:147 MapGroup.run: seq gives different numbers of results for the items",
+        ["LenaRuntimeError"],
+        lambda: _consume(lena.flow.MapGroup(lena.flow.Filter(lambda v: v[0] > 1))
+                         .run([([1, 2], {"group": [{}, {}]})])),
+        lambda: _consume(lena.flow.MapGroup(lena.flow.Filter(lambda v: v[0] > 1))
+                         .run([([2, 1, 2], {"group": [{}, {}, {}]})])))
+    add("flow/group_scale.py:19 scale_to/GroupScale: an item can not be rescaled", ["LenaValueError"],
+        # zero scale, unknown scale
+        lambda: lena.flow.GroupScale(2)([(_h([0, 0]), {})]),
+        lambda: lena.flow.GroupScale(2)([(_h(), {}), (_h([0, 0]), {})]),
+        lambda: lena.flow.scale_to(2, [(_h([0, 0]), {})]),
+        lambda: lena.flow.GroupScale(2)([(graph([[0, 1], [1, 2]]), {})]),
+        lambda: lena.flow.GroupScale(2, allow_unknown_scale=True)([(_h([0, 0]), {})]),
+        lambda: lena.flow.GroupScale(2)([(lena.structures.Graph([(0, 1)]), {})]),
+        lambda: lena.flow.GroupScale(2, allow_zero_scale=True)([(lena.structures.Graph([(0, 1)]), {})]),
+        lambda: lena.flow.GroupScale(2)([(lena.structures.Graph([(0, 1)], scale=0), {})]))
+
+    # ---- lena.structures
+    add("structures/graph.py:80 graph: error fields before coordinates, without or with several coordinates",
+        ["LenaTypeError", "LenaValueError"],
+        lambda: graph([[0, 1], [1, 2], [1, 1]], field_names=("x", "error_x", "y")),
+        lambda: graph([[0, 1], [1, 2], [1, 1]], field_names="error_x, x, y"),
+        lambda: graph([[0, 1], [1, 2], [1, 1]], field_names=("x", "y", "error_z")),
+        lambda: graph([[0, 1], [1, 2], [1, 1]], field_names=("x", "x_a", "error_x_a")))
+    add("structures/graph.py:563 graph.scale(): the scale was not set", ["LenaAttributeError"],
+        lambda: lena.structures.Graph().scale(), lambda: lena.structures.Graph([(0, 1)]).scale(),
+        lambda: lena.structures.Graph([(0, 1)]).scale(2))
+    add("structures/graph.py:574 graph.scale(other): zero scale", ["LenaValueError"],
+        lambda: lena.structures.Graph([(0, 1)], scale=0).scale(1),
+        lambda: lena.structures.Graph([(0, 1), (1, 2)], scale=0.0).scale(3))
+    add("structures/histogram.py:308 histogram.scale(other): zero entries", ["LenaValueError"],
+        lambda: _h([0, 0]).scale(1), lambda: histogram([[0, 1], [0, 1]], [[0]]).scale(2))
+    add("structures/hist_functions.py:553 iter_cells: a range index out of the possible ones", ["LenaValueError"],
+        lambda: _consume(lena.structures.iter_cells(_h(), ranges=((-1, 1),))),
+        lambda: _consume(lena.structures.iter_cells(_h(), ranges=((0, 3),))),
+        lambda: _consume(lena.structures.iter_cells(_h(), ranges=((5, None),))))
+    add("structures/hist_functions.py:555 iter_cells: both ranges and coord_ranges", ["LenaTypeError"],
+        lambda: _consume(lena.structures.iter_cells(_h(), ranges=((0, 1),), coord_ranges=((0, 1),))))
+
+    # ---- lena.variables
+    add("variables/variable.py:87 Variable: an attribute is missing", ["AttributeError"],
+        lambda: Variable("x", abs).latex_name, lambda: Variable("x", abs, unit="m").units,
+        lambda: Variable("x", abs)._private,
+        lambda: lena.variables.Combine(Variable("x", abs), Variable("y", abs), name="xy").unit)
+    add("variables/variable.py:91 Variable: getter is a Variable", ["LenaTypeError"],
+        lambda: Variable("y", Variable("x", abs)))
+
+    # ---- lena.output
+    add("output/write.py:178 Write.run: context.output.filename is present but empty", ["LenaRuntimeError"],
+        lambda: _consume(lena.output.Write("out").run([("text", {"output": {"filename": ""}})])),
+        lambda: _consume(lena.output.Write("out", existing_unchanged=True)
+                         .run([("text", {"output": {"filename": "", "fileext": "txt"}})])))
+    add("output/render_latex.py:96 RenderLaTeX: no template name given and none in the context",
+        ["LenaRuntimeError"],
+        lambda: _consume(lena.output.RenderLaTeX(select_data=lambda v: True).run([(1, {"a": 1})])),
+        lambda: _consume(lena.output.RenderLaTeX("").run([(1, {"output": {"filetype": "csv"}})])))
